@@ -82,7 +82,10 @@ def finish(mod, tier, seed, shapes, results, wall):
     known_hit = {}
     harness_errors = []
     distinct = set()
+    counters = {}
     for r in results:
+        for ck, cv in (r.get("counters") or {}).items():
+            counters[ck] = counters.get(ck, 0) + cv
         st = r.get("status", HARNESS)
         buckets[st] = buckets.get(st, 0) + 1
         for k in tot:
@@ -160,6 +163,8 @@ def finish(mod, tier, seed, shapes, results, wall):
         cov["programs"] = max(1, buckets.get(HOLDS, 0) + len(new_violations) + sum(1 for _ in known_hit))
         cov["disagreements_checked"] = len(new_violations) + len(known_hit)
     cov.update(desc.get("extra", {}))
+    if counters:
+        cov["counters"] = counters
     ev = {
         "property_id": pid,
         "tier": tier,
